@@ -13,12 +13,12 @@ VARIABLES l,    \* next line to consume
 tvars == <<l, v>>
 
 BigW == 2 ^ 28
-InOf(r) ==
+InOf(r, clamp) ==
   [sg |-> r.sg = 1, tmin |-> r.tmin, tmax |-> r.tmax,
    wmin |-> IF r.ws = 1 THEN r.tmin ELSE (IF r.sg = 1 THEN -BigW ELSE 0),
    wmax |-> IF r.ws = 1 THEN r.tmax ELSE BigW,
    start |-> r.s, end |-> r.en, mode |-> r.mode, c |-> r.c, mt |-> r.mt, wait |-> r.wait = 1,
-   mi |-> r.mi, g |-> r.g, N |-> r.N, l3 |-> r.l3, gspan |-> 16, rec |-> r.rec = 1]
+   mi |-> r.mi, g |-> r.g, N |-> r.N, l3 |-> r.l3, gspan |-> 16, rec |-> r.rec = 1, clamp |-> clamp]
 
 Verdicts(r, in, o) ==
   [line |-> l, kind |-> o.kind,
@@ -46,8 +46,11 @@ TraceInit == l = 1 /\ v = <<>>
 
 TraceStep ==
   /\ l <= Len(TraceLog)
-  /\ \E r \in {TraceLog[l]} : \E in \in {InOf(r)} : \E o \in {ParForOutcome(in)} :
-       v' = Verdicts(r, in, o)
+  /\ \E r \in {TraceLog[l]} : \E in \in {InOf(r, FALSE)} : \E o \in {ParForOutcome(in)} :
+       \* the specification allows two thread-count rules for tiny explicit-chunk ranges (clamp)
+       IF r.mode = "chunk" /\ r.b # o.bodies
+       THEN \E in2 \in {InOf(r, TRUE)} : \E o2 \in {ParForOutcome(in2)} : v' = Verdicts(r, in2, o2)
+       ELSE v' = Verdicts(r, in, o)
   /\ l' = l + 1
 
 TraceSpec == TraceInit /\ [][TraceStep]_tvars
